@@ -80,6 +80,17 @@ LOOP_BOUND = 256  # iterations of a `while` / `loop` / hand-written iterator eva
 ITER_ADAPTORS = ("any", "all", "find", "find_map", "map", "filter", "filter_map", "collect", "count", "for_each", "fold", "try_fold", "position", "last", "rev", "enumerate", "cloned", "copied", "peekable", "chain", "flat_map", "max", "min", "sum", "take_while", "skip_while")
 
 
+class PlaceRef:
+    """A `&mut` to one element of a list (the loop variable of `for x in list.iter_mut()`): reads see the element as it is now,
+    `*x = v` and `mem::replace(x, v)` change the list."""
+
+    def __init__(self, cont, key):
+        self.cont, self.key = cont, key
+
+    def get(self):
+        return self.cont[self.key]
+
+
 class _Return(Exception):
     def __init__(self, v):
         self.v = v
@@ -286,6 +297,9 @@ class Probe:
                 return base, e0["name"]
             raise NoEval("field of a non-struct")
         if e0["k"] == "path" and len(e0["segs"]) == 1:
+            if e0["segs"][0] in env and isinstance(env[e0["segs"][0]], PlaceRef):
+                r_ = env[e0["segs"][0]]
+                return r_.cont, r_.key
             return env, e0["segs"][0]
         raise NoEval("assignment target %s" % src(e)[:30])
 
@@ -313,7 +327,8 @@ class Probe:
             segs = e["segs"]
             if len(segs) == 1:
                 if segs[0] in env:
-                    return env[segs[0]]
+                    v_ = env[segs[0]]
+                    return v_.get() if isinstance(v_, PlaceRef) else v_
                 if segs[0] == "None":
                     return None
                 ce = self.const(segs[0])
@@ -441,6 +456,26 @@ class Probe:
         if k == "return":
             raise _Return(self.ev(e["e"], env) if e["e"] is not None else ())
         if k == "for":
+            it_ = rx.peel(e["iter"])
+            enum_ = False
+            if it_.get("k") == "mcall" and it_["m"] == "enumerate" and not it_["args"]:
+                enum_, it_ = True, rx.peel(it_["recv"])
+            if it_.get("k") == "mcall" and it_["m"] == "iter_mut" and not it_["args"]:
+                # `for x in list.iter_mut()`: the loop variable is a place inside the list
+                base_ = self.ev(it_["recv"], env)
+                if isinstance(base_, list):
+                    for i_ in range(len(base_)):
+                        ref_ = PlaceRef(base_, i_)
+                        b = self.pmatch(e["pat"], [i_, ref_] if enum_ else ref_, env) if not enum_ else self._bind_enum_place(e["pat"], i_, ref_, env)
+                        if b is None:
+                            raise NoEval("loop pattern")
+                        try:
+                            self.block(e["body"], dict_view(env, b))
+                        except _Continue:
+                            continue
+                        except _Break:
+                            break
+                    return ()
             items = self.ev(e["iter"], env)
             if isinstance(items, dict) and items.get("__ty"):
                 items = self.drain(items)
@@ -515,6 +550,24 @@ class Probe:
                 raise Panic("index %d out of bounds of a list of %d" % (idx, len(base)))
             raise NoEval("index into %s" % type(base).__name__)
         raise NoEval("expression %s" % k)
+
+    def _bind_enum_place(self, pat, i, ref, env):
+        p = pat
+        while isinstance(p, dict) and p.get("k") in ("paren", "typed"):
+            p = p.get("pat")
+        if not (isinstance(p, dict) and p.get("k") == "tuple" and len(p["elems"]) == 2):
+            return None
+        out = {}
+        a, b = p["elems"]
+        if a.get("k") == "ident":
+            out[a["name"]] = i
+        elif a.get("k") != "wild":
+            return None
+        if b.get("k") == "ident":
+            out[b["name"]] = ref
+        elif b.get("k") != "wild":
+            return None
+        return out
 
     def drain(self, it):
         """Everything a hand-written iterator of the crate (a struct value with `impl Iterator`) yields, by evaluating its
@@ -643,6 +696,11 @@ class Probe:
             r = self.callhooks[segs[-1]](self, e, env)
             if r is not NotImplemented:
                 return r
+        if segs[-2:] == ["mem", "replace"] and len(e["args"]) == 2:
+            cont, key = self.place(rx.peel(e["args"][0]), env)
+            old = cont[key]
+            cont[key] = self.ev(e["args"][1], env)
+            return old
         if self.lenient and len(segs) >= 2 and segs[-1][:1].isupper() and self.find_fn(segs) is None:
             # arguments of an enum constructor that cannot be evaluated stay unknown (the caller compares the others)
             args = []
